@@ -16,6 +16,7 @@ CONSTANTS
   MaxTops = 0
   AliasAlpha <- AliasForms
   MaxAliases = 1
+  NestedLike = FALSE
   CmdKinds <- IgnInv
 INVARIANT SafeVis
 INVARIANT SafeAccess
